@@ -102,6 +102,19 @@ def run(repo: Repo, rep: Report, tier: str) -> None:
     rep.floor("codec item loops", decoder_loops_complete(repo, rep, "decoder-complete", None), 6)
     from ..lints import item_generators_exhaustive, no_memoised_state
     rep.floor("item generators evaluated", item_generators_exhaustive(repo, rep, "decoder-complete"), 4)
+    rep.rule("wire-unsigned", "every struct format of the codec reads and writes unsigned big-endian integers (PS3.8: all lengths and codes are unsigned)")
+    import re as _re
+    n_fmt = 0
+    for m_ in pm.mods:
+        for name_, vals_ in m_.assigns.items():
+            v_ = vals_[0]
+            if isinstance(v_, ast.Call) and (dotted(v_.func) in ("Struct", "struct.Struct")) and v_.args and isinstance(v_.args[0], ast.Constant) and isinstance(v_.args[0].value, str):
+                n_fmt += 1
+                fmt_ = v_.args[0].value
+                signed = sorted(set(_re.findall(r"[bhilqnfde]", fmt_)))
+                little = fmt_[:1] in ("<",) or (fmt_[:1] not in (">", "!") and _re.search(r"[HILQhilq]", fmt_) is not None)
+                rep.check(not signed and not little, "wire-unsigned", f"{m_.name.replace('pynetdicom.', '')}.{name_}", f"Struct({fmt_!r})", f"the format {fmt_!r} {'reads ' + '/'.join(signed) + ' as signed' if signed else 'is not big-endian'}: a length or code with its top bit set (an item of 32768 bytes or more - a large user-identity field - for a 2-byte length) decodes to a negative number, the item is mis-framed and a well-formed PDU fails to decode; encoding is unaffected, so the round trip breaks", mod=m_, node=v_)
+    rep.floor("struct formats in the codec", n_fmt, 3)
     rep.rule("derived-live", "no member of a PDU / item / primitive class is memoised: the lookups over variable_items are recomputed from the fields decode() / from_primitive() assign")
     rep.floor("codec members examined for memoisation", no_memoised_state(repo, rep, "derived-live", ("pdu", "pdu_items", "pdu_primitives"), "a PDU object read once before decode() / from_primitive() fills it (or decoded into twice) keeps answering with the first value - to_primitive() hands on a stale or missing Application Context Name, presentation contexts or user information although the encoded bytes are right, so the primitive -> PDU -> bytes -> primitive round trip loses parameters"), 100)
     rep.rule("layout", "field sequence of _encoders == PS3.8/PS3.7 table (kind, width, reserved value, attribute order, big-endian)")
